@@ -423,10 +423,38 @@ def run(ctx):
     ctx.extra['kernel_cases'] = len(items)
 
 
+_run_main = run
+
+
+def run(ctx):   # noqa: F811
+    """... then the recovery construction of RotatedPlanarSMWPMDecoder (_path_operator, _recovery) against the model of
+    Decoders/SmwpmPath.v (engine build/qmodel_smp): harness/c03_path.py"""
+    _run_main(ctx)
+    from harness import c03_path
+    import time
+    t0 = time.time()
+    main_violations = list(ctx.violations)   # Ctx.violation keeps at most 200: make room for the new phase
+    del ctx.violations[:]
+    try:
+        c03_path.run_extra(ctx)
+    finally:
+        ctx.extra.setdefault('phase_seconds', {})['smwpm_path'] = round(time.time() - t0, 1)
+        ctx.violations[:] = main_violations + ctx.violations
+    # Ctx.finish prints the first five violations only: put one representative of every distinct key first
+    seen, first, rest = set(), [], []
+    for v in ctx.violations:
+        (rest if v['key'] in seen else first).append(v)
+        seen.add(v['key'])
+    ctx.violations[:] = first + rest
+
+
 def replay(path):
     d = json.load(open(path))
     r = d.get('replay', {})
     print(json.dumps(d, indent=1)[:3000])
+    if str(r.get('kind', '')).startswith('smwpm-'):
+        from harness import c03_path
+        return c03_path.replay(r)
     if 'code' not in r:
         return 0
     cs = (r['code'][0], tuple(r['code'][1]))
